@@ -8,3 +8,4 @@ import MimicProps.C18
 #print axioms MimicProps.C18.general_n
 #print axioms MimicProps.C18.code_refines_model
 #print axioms MimicProps.C18.code_ids_unique_and_admission
+#print axioms MimicProps.C18.code_full_registry_refuses
